@@ -90,6 +90,25 @@ CHECKS = {
         technique=TECH + "seeded op/fault/restart histories refined against a built-in set "
                          "model, ddmin-shrunk JSON replay",
         design="4 (C05/C06/C07)"),
+    "C08": dict(
+        level="exploration",
+        text=("Seeded simulated histories on a pool of interlinked HasTraits nodes (links, "
+              "List/Dict/Set/nested-list containers, lazy defaults, add_trait) with 1-3 handlers "
+              "observing generated expressions (series '.'/':', parallel branches, items and typed "
+              "*_items, +metadata, '*', optional traits; text and expression-object forms; "
+              "dispatch same/ui under the simulated scheduler). Every graph op - link "
+              "reassignment with sharing and cycles, every container mutator with duplicates, "
+              "equal-list reassignment, default materialisation, gc and drop of nodes - is "
+              "followed by a probe of every pool object; a plain-Python model recomputes the "
+              "matched set from scratch and each change must call each handler exactly once iff "
+              "matched with notify on, with the right event object/name/old/new and container "
+              "delta. Sampling, not proof."),
+        note=("Level-aliasing cycles (known finding K1) are excluded by a model-side guard and "
+              "reported via a stored witness; conflicting re-entrant mutation is not generated; "
+              "containers never hold None."),
+        technique=TECH + "seeded graph-mutation histories with probes after every step against a "
+                         "from-scratch reachability model; simulated scheduler for ui dispatch",
+        design="4 (C08)"),
 }
 
 NOT_APPLICABLE = {
